@@ -119,7 +119,7 @@ def _worker_batch(args):
         c = {"run": run, "digest": res["digest"], "violation": res.get("violation"), "stats": res.get("stats", {}),
              "fired": res.get("fired", {}), "states": res.get("states", []), "nontrivial": res.get("nontrivial", False),
              "ilv": res.get("ilv"), "steps": res.get("steps", 0), "mode": res.get("mode"),
-             "sim_time": res.get("sim_time", 0.0)}
+             "sim_time": res.get("sim_time", 0.0), "sets": res.get("sets", {})}
         if res.get("violation") is not None or run in keep_specs:
             c["spec"] = spec
         if run in keep_specs:
@@ -194,9 +194,12 @@ def determinism_selftest(prop, seed, tier, base, workers, n):
     bad = [r for r in runs if da.get(r) != db.get(r)]
     sub = runs[:max(4, n // 4)]
     dc = fresh_digests(prop, seed, tier, sub, 12345)
-    bad += [r for r in sub if da.get(r) != dc.get(str(r))]
+    # runs that are repeatable under one hash seed but differ under another: the simulated system's
+    # behaviour depends on PYTHONHASHSEED (set/dict iteration order) - not a harness problem
+    hash_bad = [r for r in sub if da.get(r) != dc.get(str(r)) and r not in bad]
     return {"seeds": n, "fresh_interpreter_seeds": len(sub), "worker_layouts": [workers, 1],
-            "hashseeds": [os.environ.get("PYTHONHASHSEED"), "12345"], "mismatches": sorted(set(bad))}
+            "hashseeds": [os.environ.get("PYTHONHASHSEED"), "12345"], "mismatches": sorted(set(bad)),
+            "hashseed_mismatches": sorted(hash_bad)}
 
 
 def load_known():
@@ -253,6 +256,26 @@ def main_check(prop, tier, seed, n_runs=None, workers=None, time_cap=None):
         if st["mismatches"]:
             print("HARNESS-ERROR nondeterministic simulator: runs %s differ between executions" % st["mismatches"][:10])
             return 2
+        if st["hashseed_mismatches"]:
+            run = st["hashseed_mismatches"][0]
+            if prop == "C18":
+                # repeating the same session in another interpreter gives a different event log
+                repdir = os.environ.get("VERIF_REPLAY_DIR") or os.path.join(ROOT, "replays")
+                os.makedirs(repdir, exist_ok=True)
+                path = os.path.join(repdir, "%s-%d-%d-hashseed.json" % (prop, seed, run))
+                with open(path, "w") as f:
+                    json.dump({"property": prop, "kind": "hashseed", "seed": seed, "run": run, "tier": tier,
+                               "hashseeds": st["hashseeds"], "signature": "hashseed_dependent_result",
+                               "spec": P["gen"](seed, run, tier)}, f, indent=1, default=str)
+                print("VIOLATION property=%s replay=%s" % (prop, path))
+                print("  signature: hashseed_dependent_result   runs: %s" % st["hashseed_mismatches"][:8])
+                write_evidence(prop, tier, seed, {"evaluations": nself, "distinct_nontrivial": 2, "rule": P["rule"],
+                                                  "samples": [{"run": run}], "determinism_selftest": st},
+                               time.time() - t0, 1, ASSUMPTIONS)
+                return 1
+            print("HARNESS-ERROR results of runs %s depend on PYTHONHASHSEED (that is a C18 matter; this check cannot "
+                  "be trusted on such a tree)" % st["hashseed_mismatches"][:10])
+            return 2
         # 2. the search
         keep = {0, 1, 2}
         results, skipped = run_many(prop, seed, tier, range(n_runs), base, workers, keep_specs=keep,
@@ -265,7 +288,10 @@ def main_check(prop, tier, seed, n_runs=None, workers=None, time_cap=None):
         steps = 0
         modes = Counter()
         sim_time = 0.0
+        named_sets = {}
         for r in results:
+            for name, vals in (r.get("sets") or {}).items():
+                named_sets.setdefault(name, set()).update(vals)
             stats.update(r["stats"])
             fired.update(r["fired"])
             states.update(r["states"])
@@ -286,10 +312,11 @@ def main_check(prop, tier, seed, n_runs=None, workers=None, time_cap=None):
         reported = []
         repdir = os.environ.get("VERIF_REPLAY_DIR") or os.path.join(ROOT, "replays")
         os.makedirs(repdir, exist_ok=True)
-        for sig, rs in sorted(by_sig.items()):
+        for nsig, (sig, rs) in enumerate(sorted(by_sig.items())):
             r = rs[0]
             iso = lambda spec, wd, _p=prop: execute_isolated(_p, spec, wd)
-            m = M.Minimiser(iso, os.path.join(base, "min"), budget=P.get("min_budget", 250))
+            # full minimisation budget for the first few distinct violations, a small one for the rest
+            m = M.Minimiser(iso, os.path.join(base, "min"), budget=P.get("min_budget", 250) if nsig < 3 else 40)
             res0 = iso(r["spec"], os.path.join(base, "min0"))
             if res0.get("violation") is None or res0["violation"].get("signature") != sig:
                 print("HARNESS-ERROR violation of run %d did not reproduce in the parent process" % r["run"])
@@ -363,6 +390,7 @@ def main_check(prop, tier, seed, n_runs=None, workers=None, time_cap=None):
             "outcomes": {k: v for k, v in stats.items() if not k.startswith("probe:") and not k.startswith("fired:")},
             "probes_stuck_at_zero": zero_probes,
             "distinct_interleavings": len(ilv),
+            "distinct_other": {name: len(v) for name, v in named_sets.items()},
             "distinct_abstract_states": len(states),
             "modes": dict(modes),
             "determinism_selftest": st,
@@ -409,6 +437,14 @@ def main_replay(path):
         rep = json.load(f)
     prop = rep["property"]
     P = props.PROPS[prop]
+    if rep.get("kind") == "hashseed":
+        d = [fresh_digests(prop, rep["seed"], rep["tier"], [rep["run"]], hs).get(str(rep["run"])) for hs in (0, 12345)]
+        if d[0] != d[1]:
+            print("VIOLATION property=%s replay=%s" % (prop, path))
+            print("  signature=hashseed_dependent_result digests under PYTHONHASHSEED 0 / 12345: %s / %s" % tuple(d))
+            return 1
+        print("replay: no violation (same digest %s under both hash seeds)" % d[0])
+        return 0
     base = scratch_base()
     try:
         res = execute_isolated(prop, rep["spec"], os.path.join(base, "replay"))
